@@ -104,7 +104,11 @@ class IC10Operand:
 
     def to_string(self) -> str:
         if isinstance(self.value, IC10Register):
-            return self.value.code_expr
+            expr = self.value.code_expr
+            if isinstance(expr, float):
+                # a name aliased to a constant: spell the number like any other literal
+                return IC10Operand(expr).to_string()
+            return expr
         elif isinstance(self.value, float):
             absval = abs(self.value)
             if absval >= 0.1:
